@@ -3,7 +3,8 @@
 tier=${1:-quick}; shift
 cd /verif
 names=${@:-$(ls seeded | grep '^C[0-9][0-9]-')}
-out=seeded/RESULTS_$tier.txt; : > $out.tmp
+sfx=""; [ -n "${VERIF_SEED:-}" ] && [ "${VERIF_SEED}" != 1 ] && sfx="_seed${VERIF_SEED}"
+out=seeded/RESULTS_$tier$sfx.txt; : > $out.tmp
 for n in $names; do
   id=${n%%-*}
   other=$(python3 -c "import json;print(json.load(open('seeded/$n/meta.json')).get('caught_by_other_check',''))" 2>/dev/null)
